@@ -53,7 +53,8 @@ public:
             if (isSubscriptionIdValid(subscriptionId)) {
                 (*observer)(args...);
 
-                if (!observer->isValid()) {
+                // the callback may have unsubscribed (and thereby destroyed) this observer
+                if (isSubscriptionIdValid(subscriptionId) && !observer->isValid()) {
                     unsubscribeById(subscriptionId);
                 }
             }
